@@ -2,6 +2,7 @@
 import hashlib
 import json
 import os
+import re
 import shlex
 
 from hypothesis import strategies as st
@@ -210,6 +211,11 @@ def run_case(case, ctx):
         if fx.rc != 0 and not fx.summary("exit"):
             return Outcome(ok=True, classes=sorted(classes | {"fix keeps aborting"}), inconclusive=True)
         post = w.arr.snap_data()
+        stop_at = None
+        m = re.search(rb"Is a directory\.\s*\n(?:.*\n)?DANGER! Without a working data disk[^\n]*\nStopping at block (\d+)", fx.err)
+        if m and fx.rc != 0 and int((fx.summary("error_unrecoverable") or [b"0"])[0]) >= 1:
+            stop_at = int(m.group(1))
+            classes.add("fix stopped at a block (recorded path is a directory)")
         nunrec = int((fx.summary("error_unrecoverable") or [b"0"])[0])
         known = []
         damaged_recorded = 0
@@ -244,6 +250,12 @@ def run_case(case, ctx):
                         sig = classify(w, c, dn, f, V, pre_bytes, post_bytes, a, reruns)
                         if sig:
                             known.extend(sig)
+                            continue
+                        # C05-stop-unfinished: fix stopped ("Stopping at block N") because a recorded path is now a directory and
+                        # cannot be opened for writing; a damaged file that still has blocks at positions >= N was being
+                        # rewritten and is left as it is, without a status line (the run itself exits with a failing status)
+                        if stop_at is not None and f.blocks and max(p_ for p_, _, _ in f.blocks) >= stop_at and V is not None and pre_bytes != V:
+                            known.append("C05-stop-unfinished")
                             continue
                         return Outcome(ok=False, why="fix modified %s/%s without reporting it recovered or unrecoverable, and it is not the recorded version" % (dn, rel.decode("latin-1")))
             # paths unknown to the content file are never written
